@@ -268,3 +268,71 @@ let () =
           let (l, s, _) = List.nth evs k in
           mismatch l s (Printf.sprintf "slice pool %s: event %d is not enabled in the model (a payload sent by a thread that does not own the node, a node pushed twice, ...)" !tag k)));
     pbuf := [])
+
+(* ---------------- happens-before (coq/HB.v): the proved race detector on every episode ---------------- *)
+let hbuf : (int * string * M.hev option) list ref = ref []
+let hgo : string ref = ref ""
+
+let nn s = n_of_int (int_of_string s)
+let optn s = let i = int_of_string s in if i = 0 then None else Some (n_of_int i)
+
+let hev_of (a : string list) : M.hev option =
+  match a with
+  | ["a"; t; l; w] -> Some { M.hth = nn t; M.hk = M.HAcc (nn l, b w) }
+  | ["s"; t; x; y] -> Some { M.hth = nn t; M.hk = M.HSync (optn x, optn y) }
+  | ["b"; t] -> Some { M.hth = nn t; M.hk = M.HBarrier }
+  | _ -> None
+
+let () =
+  register "HB" (fun _ _ a -> (match a with t :: _ -> tag := t | _ -> ()); hbuf := []; hgo := "");
+  register "h" (fun ln line a -> hbuf := (ln, line, hev_of a) :: !hbuf);
+  register "hrace" (fun _ _ a -> hgo := String.concat " " a);
+  register "ENDHB" (fun ln line _ ->
+    let evs = List.rev !hbuf in
+    incr checked;
+    (match List.find_opt (fun (_, _, r) -> r = None) evs with
+     | Some (l, s, _) -> mismatch l s ("slice hb " ^ !tag ^ ": unknown record")
+     | None ->
+       let raws = List.filter_map (fun (_, _, r) -> r) evs in
+       let verdict = match M.race_check raws with
+         | None -> "none"
+         | Some (i, j) -> Printf.sprintf "%d %d" (int_of_n i) (int_of_n j) in
+       if verdict <> "none" then begin
+         let (i, j) = Scanf.sscanf verdict "%d %d" (fun x y -> (x, y)) in
+         let (l1, s1, _) = List.nth evs i and (l2, s2, _) = List.nth evs j in
+         mismatch l2 s2 (Printf.sprintf "slice hb %s: DATA RACE: events %d (line %d: %s) and %d are conflicting accesses not ordered by happens-before" !tag i l1 s1 j)
+       end;
+       if verdict <> !hgo then
+         mismatch ln line (Printf.sprintf "slice hb %s: the proved detector says [%s], the harness detector says [%s]" !tag verdict !hgo));
+    hbuf := [])
+
+(* ---------------- lock discipline (coq/Lockset.v) ---------------- *)
+let kbuf : (int * string * M.lev option) list ref = ref []
+
+let lev_of (a : string list) : M.lev option =
+  match a with
+  | "lk" :: t :: _ -> Some (M.LLock (nat t))
+  | "ul" :: t :: _ -> Some (M.LUnlock (nat t))
+  | "rl" :: t :: _ -> Some (M.LRLock (nat t))
+  | "ru" :: t :: _ -> Some (M.LRUnlock (nat t))
+  | "rd" :: t :: _ -> Some (M.LRead (nat t))
+  | "wr" :: t :: _ -> Some (M.LWrite (nat t))
+  | _ -> None
+
+let () =
+  register "LOCK" (fun _ _ a -> (match a with t :: o :: _ -> tag := t ^ " " ^ o | t :: _ -> tag := t | _ -> ()); kbuf := []);
+  register "k" (fun ln line a -> kbuf := (ln, line, lev_of a) :: !kbuf);
+  register "ENDLOCK" (fun ln line _ ->
+    let evs = List.rev !kbuf in
+    incr checked;
+    (match List.find_opt (fun (_, _, r) -> r = None) evs with
+     | Some (l, s, _) -> mismatch l s ("slice lock " ^ !tag ^ ": access outside the guard table / with no guard")
+     | None ->
+       let raws = List.filter_map (fun (_, _, r) -> r) evs in
+       (match M.lkrun_idx M.lkinit raws M.O with
+        | M.Inr _ -> ()
+        | M.Inl i ->
+          let k = int_of_nat i in
+          let (l, s, _) = List.nth evs k in
+          mismatch l s (Printf.sprintf "slice lock %s: event %d breaks the lock discipline (a write without the lock held exclusively, a read without it held)" !tag k)));
+    kbuf := [])
